@@ -4,10 +4,14 @@
 package main
 
 import (
+	"context"
 	"fmt"
+	scalibrfs "github.com/google/osv-scalibr/fs"
+	"github.com/google/osv-scalibr/packageindex"
 	"sort"
 	"strings"
 	"time"
+	"verif/memfs"
 
 	scalibr "github.com/google/osv-scalibr"
 	"github.com/google/osv-scalibr/detector"
@@ -80,6 +84,7 @@ func names[T plugin.Plugin](ps []T) []string {
 }
 
 func main() {
+	scankit.Quiet()
 	r := ev.Start("C19", "exploration", 5*time.Minute, 10*time.Minute)
 	tuples := allTuples()
 
@@ -459,6 +464,30 @@ func main() {
 			checkSet([]detector.Detector{&scankit.Det{N: "harness-det", Required: []string{fsAll[0].Name(), n}}, &scankit.Det{N: "harness-det-2", Required: []string{n}}}, "two harness detectors requiring "+n)
 		}
 	}
+	// (7) Scan itself: an extractor that a detector pulls in is subject to the same requirement check
+	// as one that was configured directly. For every capability tuple and every registered filesystem
+	// extractor, a scan of an empty virtual root with a harness detector requiring that extractor
+	// fails exactly when the reference says the extractor's requirements are not met.
+	for _, c := range tuples {
+		c := c
+		for _, p := range fsAll {
+			ok := satisfies(p.Requirements(), &c)
+			cfg := &scalibr.ScanConfig{
+				Detectors: []detector.Detector{&scankit.Det{N: "harness-det", Required: []string{p.Name()}, Fn: func(context.Context, *scalibrfs.ScanRoot, *packageindex.PackageIndex) ([]*detector.Finding, error) {
+					return nil, nil
+				}}},
+				Capabilities: &c,
+				ScanRoots:    []*scalibrfs.ScanRoot{{FS: memfs.New(memfs.D("")), Path: ""}},
+			}
+			res := scalibr.New().Scan(context.Background(), cfg)
+			r.Evals.Add(1)
+			failed := res.Status.Status == plugin.ScanStatusFailed
+			if failed == ok {
+				r.Violation("scan-with-required-extractor:"+map[bool]string{true: "requirements-not-enforced", false: "rejected-although-satisfied"}[!ok], fmt.Sprintf("detector requiring %s under caps{%s}: scan status %s, reference says requirements satisfied=%v", p.Name(), capStr(c), res.Status, ok), nil)
+			}
+			r.Distinct(fmt.Sprintf("scanreq:%s|%v|%s", p.Name(), ok, capStr(c)))
+		}
+	}
 	r.Assume("the requirement semantics are those written in the comments of plugin/plugin.go (OSUnix = Linux or Mac; Any = don't care)")
-	r.Finish("complete enumeration: 60x60 requirement/capability tuples on a fake plugin; 60 capability tuples x every plugin of el.All/sl.All/dl.All; every key and every ordered pair of keys of the filesystem name table, every key of the other two; every RequiredExtractors entry; EnableRequiredExtractors on every ordered pair of detectors, on the full detector set, and for harness detectors requiring each registered filesystem and standalone extractor name. distinct = (plugin,verdict,tuple) triples + unsatisfied predicate cells + keys", true)
+	r.Finish("complete enumeration: 60x60 requirement/capability tuples on a fake plugin; 60 capability tuples x every plugin of el.All/sl.All/dl.All; every key and every ordered pair of keys of the filesystem name table, every key of the other two; every RequiredExtractors entry; EnableRequiredExtractors on every ordered pair of detectors, on the full detector set, and for harness detectors requiring each registered filesystem and standalone extractor name. Scanner.Scan of an empty root with a harness detector requiring each filesystem extractor under each capability tuple (fails iff the extractor's requirements are not met). distinct = (plugin,verdict,tuple) triples + unsatisfied predicate cells + keys", true)
 }
